@@ -402,7 +402,9 @@ fn fd_ragged_r8x18() {
 /// does not finish; the width axis is therefore sampled at these values.)
 #[kani::proof]
 #[kani::unwind(42)]
-#[kani::stub(crate::symbol_size::SymbolList::all, vs::all_two_smallest)]
+#[kani::stub(crate::symbol_size::SymbolList::all, vs::all_r8x18)]
+#[kani::stub(crate::symbol_size::SymbolSize::block_setup, vs::bs_r8x18)]
+#[kani::stub(crate::symbol_size::SymbolSize::has_padding_modules, vs::pad_r8x18)]
 fn fd_reject_small() {
     let px: [bool; 36] = kani::any();
     assert!(MatrixMap::<bool>::try_from_bits(&px[..36], 0).err() == Some(BitmapConversionError::ZeroWidth));
